@@ -370,6 +370,10 @@ func runJCase(srv *lrsrv.Srv, c jcase, sec *vh.Section) (lines, impls []string, 
 		it.SetBackward(false)
 		it.SetPos(journal.Pos{})
 		delivered := map[int]bool{}
+		stored := map[int]int{}
+		for i, e := range p.Evs {
+			stored[e.Lbl] = i
+		}
 		ordered := true
 		last := -1
 		for k := 0; k < 100000; k++ {
@@ -378,10 +382,10 @@ func runJCase(srv *lrsrv.Srv, c jcase, sec *vh.Section) (lines, impls []string, 
 				break
 			}
 			n, _ := strconv.Atoi(l)
-			if n <= last {
+			if stored[n] <= last {
 				ordered = false
 			}
-			last = n
+			last = stored[n]
 			delivered[n] = true
 			it.Next(ctx)
 		}
